@@ -39,7 +39,7 @@ MANIFEST = {
         note=_COMMON_NOTE + " rdtsc→epoch conversion is not modelled (System clock in the harness).", ref="§5 C05, §9.1, Appendix A.2"),
     "C06": dict(
         technique="Lean 4 proof: flag-after-flush invariants on the backend model for every schedule (flag only after the Flush event was popped, own statements popped first, every sink of every logger not yet erased flushed before the flag, other threads' strictly older statements popped under C05's hypotheses, request never dropped or counted); witnesses for F6 and F12; differential correspondence + oracle at the moment flush_log returns",
-        text=_SCOPE + "Proved: C06_flag_only_after_pop, C06_flag_numbers_unique (a caller is released only by its own Flush event), C06_own_statements_first (everything the caller's thread accepted earlier was popped — hence dispatched, C03 — before its Flush statement), C06_flush_step (processing the Flush event emits flushed / fthrow+notification for every active sink and only then raises the flag; a throwing flush blocks neither the other sinks nor the flag), C06_other_threads (grace != 0, C05 premise: every record of any thread with a strictly smaller timestamp has been popped when the flag is raised; equal clock values are a tie and not claimed), C06_flush_never_dropped (dropping and blocking queues: a refused request parks for a retry with nothing counted), C06_release. Findings proved as witnesses: F6 (pinned refresh order) and F12 (sinks of a logger marked for removal were skipped by the flush: C06_removed_logger_sink_not_flushed_unrepaired / _sink_flushed for the repaired, extracted flag value). Contract over positions of the event log: C06_flush_log_contract (if the caller's Flush statement st sits in accepted = pre ++ st :: post and its flag is raised, then the flag's position n in the log is recorded, popped = pre ++ st :: more, no write of a statement of pre comes after n, and every write before n — of any thread and logger — is followed before n by a flush of its sink), C06_nothing_unflushed_at_raise (for every raised flag, flush or removal). Progress ('flush_log returns as long as the backend keeps running'): C06_flush_log_returns_committed / _committed_after_grace (a committed request: after quiet polls, at least as many as there are pending records, past the grace period, the flag is raised and resume answers done; single-event and batch mode, every soft/hard limit) and C06_flush_log_returns (a caller still in its retry loop behind a full queue, either queue type: after the drain the retry is granted — C09 end to end —, then the flag is raised and the call returns). Assumed there: the drain continuation itself is quiet (no frontend operation injected during it), the request fits an empty queue, the backend keeps running; the prefix schedule is arbitrary (C09_reads_committed: in every reachable state a context with nothing left to read has its reader position published).",
+        text=_SCOPE + "Proved: C06_flag_only_after_pop, C06_flag_numbers_unique (a caller is released only by its own Flush event), C06_own_statements_first (everything the caller's thread accepted earlier was popped — hence dispatched, C03 — before its Flush statement), C06_flush_step (processing the Flush event emits flushed / fthrow+notification for every active sink and only then raises the flag; a throwing flush blocks neither the other sinks nor the flag), C06_other_threads (grace != 0, C05 premise: every record of any thread with a strictly smaller timestamp has been popped when the flag is raised; equal clock values are a tie and not claimed), C06_flush_never_dropped (dropping and blocking queues: a refused request parks for a retry with nothing counted), C06_release. Findings proved as witnesses: F6 (pinned refresh order) and F12 (sinks of a logger marked for removal were skipped by the flush: C06_removed_logger_sink_not_flushed_unrepaired / _sink_flushed for the repaired, extracted flag value). The sink's own write/flush protocol ('flushed, so it can be read from the destination'): FileSink.C06_sink_conservation and C06_sink_flush_makes_readable (file ++ stdio buffer = everything written; after flush_sink() the file holds everything written, for every sequence of writes with or without a before_write callback, flushes and periodic tasks, provided every writing path marks the stream dirty — extracted by enumerating the control paths of StreamSink::write_log; witnesses for a path that forgets the flag), tied by h3_filesink on the real FileSink / JsonFileSink / RotatingFileSink / StreamSink with the file re-read through a second descriptor after every flush. Contract over positions of the event log: C06_flush_log_contract (if the caller's Flush statement st sits in accepted = pre ++ st :: post and its flag is raised, then the flag's position n in the log is recorded, popped = pre ++ st :: more, no write of a statement of pre comes after n, and every write before n — of any thread and logger — is followed before n by a flush of its sink), C06_nothing_unflushed_at_raise (for every raised flag, flush or removal). Progress ('flush_log returns as long as the backend keeps running'): C06_flush_log_returns_committed / _committed_after_grace (a committed request: after quiet polls, at least as many as there are pending records, past the grace period, the flag is raised and resume answers done; single-event and batch mode, every soft/hard limit) and C06_flush_log_returns (a caller still in its retry loop behind a full queue, either queue type: after the drain the retry is granted — C09 end to end —, then the flag is raised and the call returns). Assumed there: the drain continuation itself is quiet (no frontend operation injected during it), the request fits an empty queue, the backend keeps running; the prefix schedule is arbitrary (C09_reads_committed: in every reachable state a context with nothing left to read has its reader position published).",
         note=_COMMON_NOTE, ref="§5 C06, §7 F6 F12, §9.1"),
     "C08": dict(
         technique="Lean 4 proof: accounting invariants on the backend model for every schedule (discarded + blocked = reported + pending counters; ret=1 iff appended, ret=0 iff counted; control requests retried, never counted; a reclaimed context has a zero counter under the extracted F24 flag); witnesses for F17/F24 in all flag combinations; differential correspondence on the BoundedDropping build + drop-count oracle",
@@ -51,7 +51,7 @@ MANIFEST = {
         note=_COMMON_NOTE, ref="§5 C10, §7 F4, §9.1"),
     "C16": dict(
         technique="Lean 4 proof: decision-logic and dispatch theorems on the backend model (enqueue and argument evaluation iff level >= logger level at the call; written to sink i iff level >= that sink's level and every filter accepts, independent of the other sinks; the statement's own static or dynamic level travels with it) + level-table obligations extracted from LogLevel.h; differential correspondence with per-sink recording and argument-evaluation counters, level changes interleaved; invariant over all schedules and stale relaxed loads of add_filter / set_log_level_filter against apply_all_filters under a release/acquire view semantics (the proved spinlock model inside), tied by structural extraction and an N-thread atomic-shim harness with real lock contention",
-        text=_SCOPE + "Proved: C16_shouldLog_iff (the frontend test is logger level <= statement level), C16_below_level_nothing (below the level nothing changes but the id counter: no evaluation, no enqueue), C16_at_level_enqueued (the record carries exactly the level passed, static or dynamic; parked, appended, or refused and counted), C16_sinks_exact / C16_sink_iff (the events of a dispatch are exactly one write per accepting sink, in list order, with the statement's own id, level and timestamp), C16_sink_independent (other sinks' levels and filters do not matter), C16_sink_prefix (a throwing sink cuts off only the sinks after it), C16_level_reported, C16_process_is_dispatch; obligations level_order / level_ranks / level_compare_is_rank_compare on the extracted enum. Tie: the H2 harness uses the real LOG_* macros (static levels) and the dynamic-level call with side-effect counters in the arguments, sink level filters and filters, level changes interleaved (also injected inside polls), against the model, plus an oracle on every recorded sink call. Concurrent add_filter against the backend's filter snapshot is covered by a separate stream when present (Filt bundle); with the sequential scheduler it cannot be produced. Concurrency of Sink::add_filter with the backend's apply_all_filters (relaxed _new_filter flag, spinlock, _local_filters copy): C16_filter_lock_exclusive and C16_filter_visibility prove for every number of threads, schedule and stale-load choice that the copy is race-free and that every evaluation consults a filter list containing every filter whose add_filter returned happens-before the evaluation and only filters whose add_filter had begun (negative witnesses: try_lock-and-evaluate-anyway leaks, relaxed lock races, and the run showing why the happens-before premise is needed); tied to the code by extraction of the two functions' structure and by running the real Sink compiled against an N-thread atomic shim under thousands of generated schedules (every atomic access a scheduling point) against the model and a DONE/STARTED oracle.",
+        text=_SCOPE + "Proved: C16_shouldLog_iff (the frontend test is logger level <= statement level), C16_below_level_nothing (below the level nothing changes but the id counter: no evaluation, no enqueue), C16_at_level_enqueued (the record carries exactly the level passed, static or dynamic; parked, appended, or refused and counted), C16_sinks_exact / C16_sink_iff (the events of a dispatch are exactly one write per accepting sink, in list order, with the statement's own id, level and timestamp), C16_sink_independent (other sinks' levels and filters do not matter), C16_sink_prefix (a throwing sink cuts off only the sinks after it), C16_level_reported, C16_process_is_dispatch; obligations level_order / level_ranks / level_compare_is_rank_compare on the extracted enum. Tie: the H2 harness uses the real LOG_* macros (static levels) and the dynamic-level call with side-effect counters in the arguments, sink level filters and filters, level changes interleaved (also injected inside polls), against the model, plus an oracle on every recorded sink call. Which pattern a sink's line is formatted with (its own override pattern if it has one, else its logger's, whatever the order in which loggers were first dispatched and whichever loggers share a formatter) is the pattern bundle's rule (C12_sink_pattern_rule, C12_sink_pattern_independent_of_history), audited here with its extraction obligation. Concurrency of Sink::add_filter with the backend's apply_all_filters (relaxed _new_filter flag, spinlock, _local_filters copy): C16_filter_lock_exclusive and C16_filter_visibility prove for every number of threads, schedule and stale-load choice that the copy is race-free and that every evaluation consults a filter list containing every filter whose add_filter returned happens-before the evaluation and only filters whose add_filter had begun (negative witnesses: try_lock-and-evaluate-anyway leaks, relaxed lock races, and the run showing why the happens-before premise is needed); tied to the code by extraction of the two functions' structure and by running the real Sink compiled against an N-thread atomic shim under thousands of generated schedules (every atomic access a scheduling point) against the model and a DONE/STARTED oracle.",
         note=_COMMON_NOTE + " Override pattern formatters per sink are covered by C12. Filter concurrency: DONE is defined by happens-before (queue publication / lock), not wall-clock, because _new_filter is relaxed; there is no remove_filter in the API.", ref="§5 C16, §9.1"),
     "C17": dict(
         technique="Lean 4 proof: logger/sink life-cycle invariant on the backend model for every schedule incl. frontend steps inside a sink destructor (site 9): an erased logger has no record left in any queue or buffer, the erase rests on the per-logger emptiness check of the current state (negative witness for a hoisted check), a dead sink is unreferenced and never used after its destructor, create/remove contracts; the registries' spinlock proved under the release/acquire view semantics; differential correspondence incl. remove_logger_blocking, re-creation, sink destruction under ASan",
